@@ -569,8 +569,8 @@ pub fn spec() -> PropertySpec {
         level: "exploration",
         rule: "The real LogFileWriter writer thread and real files in a per-run tmpfs directory, built with --cfg servlin_verif so that the thread reads a simulated clock and reports each finished event; the harness drives it in lock-step (set clock, send one event with a unique sequence number, wait for the thread). Histories of 30-430 events (quick) / 100-20000 (thorough), 50 B - 60 KiB each, over configurations max_write_bytes in {64 KiB, 128 KiB, 1 MiB} x max_keep_bytes in {1, 2, 3.5, 10} x that, keep-age off / 60 s .. 1 day, max_write_age 1 s .. 1 day; clock gaps of milliseconds, seconds, hours, days; 0-5 pre-existing files of earlier runs with set sizes and mtimes; unrelated look-alike files; restarts at random points: graceful, kill (thread abandoned), kill with a torn tail (newest file cut inside its last line). After EVERY event: creation order by diffing listings, oldest-first deletion, per-file size and age bounds, total size of all prefix files <= keep-size + one event, keep-age, unrelated files untouched; at every rotation and every 64 events: all surviving lines are whole, strictly consecutive and end at the newest accepted event. File-set stage: PrefixFileSet {new, push, delete_oldest, delete_older_than, delete_oldest_while_over_max_len} sequences with synthetic clocks against a reference model of the directory. non-trivial = at least one rotation; distinct = hash of history description.",
         scenarios: vec![
-            Scenario { name: "c19.history", property: "C19", func: history, runs_quick: 1_600, runs_thorough: 40_000, doc: "writer thread histories" },
-            Scenario { name: "c19.file_set", property: "C19", func: file_set, runs_quick: 20_000, runs_thorough: 400_000, doc: "file-set API vs model" },
+            Scenario { name: "c19.history", property: "C19", func: history, runs_quick: 6_000, runs_thorough: 120_000, doc: "writer thread histories" },
+            Scenario { name: "c19.file_set", property: "C19", func: file_set, runs_quick: 80_000, runs_thorough: 1_500_000, doc: "file-set API vs model" },
         ],
         required_probes: vec!["probe.rotations", "probe.files_deleted", "probe.preexisting_files", "fault.graceful_restart", "fault.kill_restart", "fault.kill_restart_torn_tail"],
         components: json!({
